@@ -66,6 +66,8 @@ func (t *transactionManager) getAndIncrementSequenceNumber(topic string, partiti
 	defer t.mutex.Unlock()
 	sequence := t.sequenceNumbers[key]
 	t.sequenceNumbers[key] = sequence + 1
+	verifGate("txn.epoch", key, int32(t.producerEpoch))
+	verifGate("txn.seq", key, sequence)
 	return sequence, t.producerEpoch
 }
 
